@@ -1,5 +1,12 @@
 verus! {
 // ======================= value.rs: metadata and expiry predicates (real code) =========================
+//@@ unit deadline_after fn src/storage/value.rs deadline_after
+//@@   rewrite R7 "now + Duration::from_secs(100 * 365 * 24 * 60 * 60)" verif_instant_add
+fn deadline_after(expires_in: Duration) -> (r: Instant)
+    ensures iv(r) == sat_deadline(expires_in), iv(r) >= spec_now(),
+//@@ body
+//@@ end
+
 impl ValueMetadata {
 //@@ unit vm_new fn src/storage/value.rs ValueMetadata::new
     fn new() -> (r: Self)
@@ -8,10 +15,8 @@ impl ValueMetadata {
 //@@ end
 
 //@@ unit vm_with_expiration fn src/storage/value.rs ValueMetadata::with_expiration
-//@@   rewrite R7 "now + expires_in" verif_instant_add
     fn with_expiration(expires_in: Duration) -> (r: Self)
-        requires spec_now() + dur_nanos(expires_in) <= instant_max(),
-        ensures r.expires_at matches Some(d) && iv(d) == spec_now() + dur_nanos(expires_in),
+        ensures r.expires_at matches Some(d) && iv(d) == sat_deadline(expires_in),
 //@@ body
 //@@ end
 
@@ -24,10 +29,8 @@ impl ValueMetadata {
 //@@ end
 
 //@@ unit vm_set_expiration fn src/storage/value.rs ValueMetadata::set_expiration
-//@@   rewrite R7 "Instant::now() + expires_in" verif_instant_add
     fn set_expiration(&mut self, expires_in: Duration)
-        requires spec_now() + dur_nanos(expires_in) <= instant_max(),
-        ensures final(self).expires_at matches Some(d) && iv(d) == spec_now() + dur_nanos(expires_in),
+        ensures final(self).expires_at matches Some(d) && iv(d) == sat_deadline(expires_in),
             final(self).created_at == old(self).created_at, final(self).last_accessed == old(self).last_accessed, final(self).encoding == old(self).encoding,
 //@@ body
 //@@ end
@@ -64,8 +67,7 @@ impl StoredValue {
 
 //@@ unit sv_with_expiration fn src/storage/value.rs StoredValue::with_expiration
     fn with_expiration(value: Value, expires_in: Duration) -> (r: Self)
-        requires spec_now() + dur_nanos(expires_in) <= instant_max(),
-        ensures r.value == value, r.metadata.expires_at matches Some(d) && iv(d) == spec_now() + dur_nanos(expires_in),
+        ensures r.value == value, r.metadata.expires_at matches Some(d) && iv(d) == sat_deadline(expires_in),
 //@@ body
 //@@ end
 
